@@ -3948,15 +3948,24 @@ static int32 writeNewSessionTicket(ssl_t *ssl, sslBuf_t *out)
     uint8_t padLen;
     psSize_t messageSize;
     int32_t rc;
+    unsigned char tkt[256];
+    int32 tktLen = sizeof(tkt);
 
     psTracePrintHsMessageCreate(ssl, SSL_HS_NEW_SESSION_TICKET);
 
     c = out->end;
     end = out->buf + out->size;
 
-    /* magic 6 is 4 bytes lifetime hint and 2 bytes len */
-    messageSize = ssl->recordHeadLen + ssl->hshakeHeadLen +
-                  matrixSessionTicketLen() + 6;
+    /* Build the ticket first: the key list can have been emptied by
+        matrixSslDeleteSessionTicketKey since the hello extension promised
+        a ticket.  RFC 5077 3.3: the server then sends a zero-length ticket. */
+    if (matrixCreateSessionTicket(ssl, tkt, &tktLen) < 0)
+    {
+        psTraceErrr("No session ticket key: sending empty NewSessionTicket\n");
+        Memset(tkt, 0x0, 6); /* lifetime hint 0, ticket length 0 */
+        tktLen = 6;
+    }
+    messageSize = ssl->recordHeadLen + ssl->hshakeHeadLen + tktLen;
 
     if ((rc = writeRecordHeader(ssl, SSL_RECORD_TYPE_HANDSHAKE,
              SSL_HS_NEW_SESSION_TICKET, &messageSize, &padLen,
@@ -3964,14 +3973,12 @@ static int32 writeNewSessionTicket(ssl_t *ssl, sslBuf_t *out)
     {
         return rc;
     }
-
-    rc = (int32) (end - c);
-    if (matrixCreateSessionTicket(ssl, c, &rc) < 0)
+    if ((int32) (end - c) < tktLen)
     {
-        psTraceErrr("Error generating session ticket\n");
-        return MATRIXSSL_ERROR;
+        return SSL_FULL;
     }
-    c += rc;
+    Memcpy(c, tkt, tktLen);
+    c += tktLen;
 
     if ((rc = postponeEncryptRecord(ssl, SSL_RECORD_TYPE_HANDSHAKE,
              SSL_HS_NEW_SESSION_TICKET, messageSize, padLen, encryptStart, out,
